@@ -70,7 +70,12 @@ TParse == /\ IsEvent("Parse")
           /\ Len(TraceLog[l].expect) > 0 => TraceLog[l].ret \in ToSet(TraceLog[l].expect)   \* verdict fixed by the grammar
           /\ UNCHANGED <<vars, coder, one, exempt, olen, stall, gdig>>
 
-TNext == TReset \/ TCall \/ TFinal \/ TGroup \/ TRun \/ TParse
+\* lzma_str_to_filters(text): every option field must equal what the text denotes (SliceStr.tla)
+TFields == /\ IsEvent("Fields")
+           /\ TraceLog[l].got = TraceLog[l].want
+           /\ UNCHANGED <<vars, coder, one, exempt, olen, stall, gdig>>
+
+TNext == TReset \/ TCall \/ TFinal \/ TGroup \/ TRun \/ TParse \/ TFields
 TSpec == TInit /\ [][TNext]_tvars
 TraceAccepted == TLCGet("stats").diameter - 1 = Len(TraceLog)
 =============================================================================
